@@ -23,15 +23,15 @@ impl From<KErr> for crate::error::Qcow2Error {
     }
 }
 
-/// fixed-capacity stand-in for the Vec / FuturesUnordered that collects per-cluster operations
-#[derive(Clone, Copy)]
-pub(crate) struct KVec<T: Copy> {
+/// fixed-capacity, stack-allocated stand-in for the Vec / FuturesUnordered that collects per-cluster
+/// operations (heap-backed collections defeat CBMC's constant propagation)
+pub(crate) struct KVec<T> {
     a: [Option<T>; MAX_REC],
     n: usize,
 }
-impl<T: Copy> KVec<T> {
+impl<T> KVec<T> {
     pub fn new() -> Self {
-        KVec { a: [None; MAX_REC], n: 0 }
+        KVec { a: [const { None }; MAX_REC], n: 0 }
     }
     pub fn push(&mut self, t: T) {
         assert!(self.n < MAX_REC, "harness bound: too many per-cluster operations");
@@ -41,27 +41,52 @@ impl<T: Copy> KVec<T> {
     pub fn len(&self) -> usize {
         self.n
     }
+    pub fn iter(&self) -> KVecRefIter<'_, T> {
+        KVecRefIter { v: self, i: 0 }
+    }
 }
-pub(crate) struct KVecIter<T: Copy> {
+pub(crate) struct KVecIter<T> {
     v: KVec<T>,
     i: usize,
 }
-impl<T: Copy> Iterator for KVecIter<T> {
+impl<T> Iterator for KVecIter<T> {
     type Item = T;
     fn next(&mut self) -> Option<T> {
         if self.i < self.v.n {
             self.i += 1;
-            self.v.a[self.i - 1]
+            self.v.a[self.i - 1].take()
         } else {
             None
         }
     }
 }
-impl<T: Copy> IntoIterator for KVec<T> {
+impl<T> IntoIterator for KVec<T> {
     type Item = T;
     type IntoIter = KVecIter<T>;
     fn into_iter(self) -> KVecIter<T> {
         KVecIter { v: self, i: 0 }
+    }
+}
+pub(crate) struct KVecRefIter<'a, T> {
+    v: &'a KVec<T>,
+    i: usize,
+}
+impl<'a, T> Iterator for KVecRefIter<'a, T> {
+    type Item = &'a T;
+    fn next(&mut self) -> Option<&'a T> {
+        if self.i < self.v.n {
+            self.i += 1;
+            self.v.a[self.i - 1].as_ref()
+        } else {
+            None
+        }
+    }
+}
+impl<'a, T> IntoIterator for &'a KVec<T> {
+    type Item = &'a T;
+    type IntoIter = KVecRefIter<'a, T>;
+    fn into_iter(self) -> KVecRefIter<'a, T> {
+        self.iter()
     }
 }
 
@@ -224,20 +249,117 @@ impl KCache {
 /// cluster; the bool is "its zeroing has been taken care of"
 pub(crate) struct KNewCluster {
     pub key: u64,
-    pub present: bool,
+    pub present: Cell<bool>,
     pub flag: KLock<bool>,
 }
 impl KNewCluster {
     pub fn kread(&self) -> &KNewCluster {
         self
     }
+    pub fn remove(&self, key: &u64) {
+        if *key == self.key {
+            self.present.set(false);
+        }
+    }
     pub fn get(&self, key: &u64) -> Option<&KLock<bool>> {
-        if self.present && *key == self.key {
+        if self.present.get() && *key == self.key {
             Some(&self.flag)
         } else {
             None
         }
     }
+}
+
+/// two-slot stand-in for the local `HashMap<u64, guard>` of flush_cache_entries
+pub(crate) struct KMap<V> {
+    pub k: [Option<u64>; 2],
+    pub v: [Option<V>; 2],
+}
+pub(crate) enum KEntry<'a, V> {
+    Occupied,
+    Vacant(KVacant<'a, V>),
+}
+pub(crate) struct KVacant<'a, V> {
+    m: &'a mut KMap<V>,
+    key: u64,
+}
+impl<V> KMap<V> {
+    pub fn new() -> Self {
+        KMap { k: [None, None], v: [None, None] }
+    }
+    pub fn entry(&mut self, key: u64) -> KEntry<'_, V> {
+        if self.k[0] == Some(key) || self.k[1] == Some(key) {
+            KEntry::Occupied
+        } else {
+            KEntry::Vacant(KVacant { m: self, key })
+        }
+    }
+}
+impl<'a, V> KVacant<'a, V> {
+    pub fn insert(self, v: V) {
+        let i = if self.m.k[0].is_none() { 0 } else { 1 };
+        assert!(self.m.k[i].is_none(), "harness bound: more than two clusters");
+        self.m.k[i] = Some(self.key);
+        self.m.v[i] = Some(v);
+    }
+}
+pub(crate) struct KMapIter<V> {
+    m: KMap<V>,
+    i: usize,
+}
+impl<V> Iterator for KMapIter<V> {
+    type Item = (u64, V);
+    fn next(&mut self) -> Option<(u64, V)> {
+        while self.i < 2 {
+            let i = self.i;
+            self.i += 1;
+            if let (Some(k), Some(v)) = (self.m.k[i], self.m.v[i].take()) {
+                return Some((k, v));
+            }
+        }
+        None
+    }
+}
+impl<V> IntoIterator for KMap<V> {
+    type Item = (u64, V);
+    type IntoIter = KMapIter<V>;
+    fn into_iter(self) -> KMapIter<V> {
+        KMapIter { m: self, i: 0 }
+    }
+}
+
+/// a lazily created backend request: nothing is sent until `kjoin` runs it
+#[derive(Clone, Copy)]
+pub(crate) enum KDefer<'a> {
+    Fallocate(&'a KEnv, u64, usize, u32),
+    Write(&'a KEnv, u64, usize),
+}
+pub(crate) fn kdefer_fallocate(env: &KEnv, off: u64, len: usize, flags: u32) -> KDefer<'_> {
+    KDefer::Fallocate(env, off, len, flags)
+}
+pub(crate) fn kdefer_flush<'a, B: Table>(env: &'a KEnv, t: &B, size: usize) -> KDefer<'a> {
+    KDefer::Write(env, t.get_offset().unwrap(), size)
+}
+/// join_all: runs the requests (in order; completion order is not modelled)
+pub(crate) fn kjoin(v: KVec<KDefer<'_>>) -> KVec<KResult<()>> {
+    let mut out = KVec::new();
+    for d in v {
+        match d {
+            KDefer::Fallocate(env, off, len, flags) => {
+                env.rec(Rec { kind: K_FALLOC, off, len, flags, ..NOREC });
+                out.push(Ok(()));
+            }
+            KDefer::Write(env, off, len) => {
+                env.rec(Rec { kind: K_BACKEND_WRITE, off, len, ..NOREC });
+                if env.fail_write.get() {
+                    out.push(Err(KErr));
+                } else {
+                    out.push(Ok(()));
+                }
+            }
+        }
+    }
+    out
 }
 
 pub(crate) struct KEnv {
@@ -283,7 +405,7 @@ pub(crate) struct KBacking;
 impl KEnv {
     pub fn new(info: Qcow2Info) -> Self {
         KEnv {
-            new_cluster: KNewCluster { key: 0, present: false, flag: KLock::new(false) },
+            new_cluster: KNewCluster { key: 0, present: Cell::new(false), flag: KLock::new(false) },
             l2cache: KCache::empty(),
             info,
             free_cluster_offset: AtomicU64::new(0),
